@@ -1600,10 +1600,20 @@ func (e *Engine) builtin(st *State, in ssa.CallInstruction, name string, args []
 				e.setResult(st, in, tt.Int(0))
 			} else {
 				o := e.obj(st, c.Obj)
-				if !e.mapDistinct(o) {
-					e.fail("len of map with possibly aliasing symbolic keys")
+				if e.mapDistinct(o) {
+					e.setResult(st, in, tt.Int(int64(len(o.Keys))))
+				} else {
+					// write-log with possibly aliasing keys: count the entries not shadowed by a later one
+					n := tt.Int(0)
+					for i := range o.Keys {
+						var later []*Term
+						for j := i + 1; j < len(o.Keys); j++ {
+							later = append(later, tt.Not(e.valueEq(o.Keys[i], o.Keys[j])))
+						}
+						n = tt.Bin(OpAdd, n, tt.Ite(tt.And(later...), tt.Int(1), tt.Int(0)))
+					}
+					e.setResult(st, in, n)
 				}
-				e.setResult(st, in, tt.Int(int64(len(o.Keys))))
 			}
 		case ArrayV:
 			e.setResult(st, in, tt.Int(int64(len(c.E))))
